@@ -59,7 +59,7 @@ def run_translator():
             raise Infra(f"translator {script.name} failed:\n{r.stdout}\n{r.stderr}")
 
 
-def lean_build(targets=("SFV", "SFV.AuditCmd")):
+def lean_build(targets=("SFV",)):
     """returns (ok, log).  Serialised with a file lock (lake is not re-entrant)."""
     lock = open(LEAN / ".build.lock", "w")
     fcntl.flock(lock, fcntl.LOCK_EX)
